@@ -331,3 +331,43 @@ Theorem C05_source_file_name : forall c b0 idr key,
     Ok (Return (Path.join (Path.join (cache_dir c) (hex [b0])) (hex (b0 :: idr) ++ name_sep ++ key))).
 Proof. exact src_fileName_eq. Qed.
 Print Assumptions C05_source_file_name.
+
+(* ------------------------------------------------------------------ *)
+(* WHOLE FUNCTIONS of cache/cache.go translated in world mode (Gen/CacheWorldSrc.v: every
+   operating-system call an uninterpreted operation of the record SrcWorld.os_ops on an abstract
+   world), proved equal -- for every world and every behaviour of the operations -- to running the
+   model's program terms with SrcWorld.run_prog over the same operations. *)
+From GI Require Import Lib.GoSemWorld Lib.GoSemWorldVal Cache.SrcWorld Gen.CacheWorldSrc Cache.SrcWorldFacts.
+
+(* Cache.fileName as translated is run_prog's file_name for the index entry ("a") and the output
+   file ("d") of an id *)
+Theorem C05_source_world_file_name : forall (c : cw_Cache) (id : bytes), id <> [] ->
+  cw_Cache_fileName c id [x61] = GoSem.Ok (c, file_name (cw_Cache_dir c) (IdxP id)) /\
+  cw_Cache_fileName c id [x64] = GoSem.Ok (c, file_name (cw_Cache_dir c) (DatP id)).
+Proof. exact (fun c id Hne => conj (cw_fileName_idx c id Hne) (cw_fileName_dat c id Hne)). Qed.
+Print Assumptions C05_source_world_file_name.
+
+(* Cache.used as translated performs exactly the operations of the model's used_prog (Stat; Chtimes
+   with two clock reads when Stat failed) when files are fresh: the world afterwards is the
+   world run_prog reaches *)
+Theorem C05_source_world_used : forall (OS : os_ops), always_fresh OS ->
+  forall (w : World OS) (c : cw_Cache) (p : path),
+  cw_Cache_used OS w c (file_name (cw_Cache_dir c) p) = GoSem.Ok (used_w OS (cw_Cache_dir c) p w, c).
+Proof. exact cw_used_eq. Qed.
+Print Assumptions C05_source_world_used.
+
+(* ... where used_w is the world after used_prog, whatever follows it *)
+Theorem C05_source_world_used_prog : forall (OS : os_ops) (A : Type) dir p (k : prog A) w h o,
+  run_prog OS dir (used_prog p k) (w, h, o) = run_prog OS dir k (used_w OS dir p w, h, o).
+Proof. exact run_used. Qed.
+Print Assumptions C05_source_world_used_prog.
+
+(* Cache.OutputFile as translated = run_prog of output_file_prog *)
+Theorem C05_source_world_output_file : forall (OS : os_ops), always_fresh OS ->
+  forall (w : World OS) (c : cw_Cache) (out : bytes) h o, out <> [] ->
+  cw_Cache_OutputFile OS w c out =
+  match run_prog OS (cw_Cache_dir c) (output_file_prog out) (w, h, o) with
+  | (st, p) => GoSem.Ok (st_world OS st, c, file_name (cw_Cache_dir c) p)
+  end.
+Proof. exact cw_OutputFile_eq. Qed.
+Print Assumptions C05_source_world_output_file.
